@@ -63,6 +63,10 @@ def r1_acquire_critical_section(chk: Check):
         decs = [n for n in g.live if n.kind == "stmt" and isinstance(n.ast, ast.AugAssign) and src(n.ast.target) == "self.available" and isinstance(n.ast.op, ast.Sub)]
         chk.require(len(decs) == 1 and src(decs[0].ast.value) == "dependency.count" and any(g.dominates(b, decs[0]) for b in gb), chk.fkey(f, "grant decrements"),
                     f"{qual}: a granted request must decrement available by the requested count, only on the granted branch", loc)
+        # the count tested is the recount: nothing else writes the availability in acquire (a credit before the test lets a request through that does not fit)
+        writes = [n for n in g.live if n.kind == "stmt" and ((isinstance(n.ast, ast.AugAssign) and src(n.ast.target) == "self.available") or
+                                                             (isinstance(n.ast, ast.Assign) and any(src(x) == "self.available" for x in n.ast.targets))) and n not in decs]
+        chk.require(not writes, chk.fkey(f, "availability only decremented on grant"), f"{qual} also writes self.available at {[src(n.ast)[:50] for n in writes]}: the capacity test must be made on the recounted value", loc)
         held_stmt = t.stmt
         held = _with_locks(t.ast, need) | (_with_locks(t.stmt, need) if t.stmt is not None else set())
         if t.stmt is not None and isinstance(t.stmt, (ast.With, ast.AsyncWith)):
